@@ -318,12 +318,9 @@ theorem energy_eq_sum {M : Type} [AddCommMonoid M] {n : ℕ} [NeZero n] (w : ℂ
   refine Finset.sum_congr rfl fun i _ => ?_
   exact congrArg (fun z => w (toFn xs z)) (ZMod.natCast_zmod_val (n := m + 1) (show ZMod (m + 1) from i))
 
-/-- **`fft2_energy` with the concrete DFT, no hypotheses left**: the normalised `fft2` / `ifft2`
-preserve `Σ_k conj(x_k)·x_k = Σ_k |x_k|²` for every complex list, centred or not. -/
-theorem fft2_energy_dft (cfg : Cfg) (hn : cfg.normalized = true) (xs : List ℂ) :
-    C01.energy (fun z => conj z * z) (fft2 (listBackend torchFft) cfg xs) = C01.energy (fun z => conj z * z) xs ∧
-    C01.energy (fun z => conj z * z) (ifft2 (listBackend torchFft) cfg xs) = C01.energy (fun z => conj z * z) xs := by
-  refine C01.fft2_energy (fun z => conj z * z) torchFft (fun inv ys => ?_) cfg hn xs
+/-- the orthonormal 1-D transforms preserve `Σ_k conj(x_k)·x_k` of every list -/
+theorem energy_torchFft_ortho (inv : Bool) (ys : List ℂ) :
+    C01.energy (fun z => conj z * z) (torchFft inv .ortho ys) = C01.energy (fun z => conj z * z) ys := by
   by_cases h0 : ys.length = 0
   · have : ys = [] := List.eq_nil_of_length_eq_zero h0
     subst this; simp [torchFft]
@@ -331,6 +328,13 @@ theorem fft2_energy_dft (cfg : Cfg) (hn : cfg.normalized = true) (xs : List ℂ)
     rw [energy_eq_sum (n := ys.length) _ _ (torchFft_length inv .ortho ys), energy_eq_sum (n := ys.length) _ ys rfl,
       toFn_torchFft inv .ortho ys rfl]
     exact energyFn_torchFftFn_ortho inv (toFn ys)
+
+/-- **`fft2_energy` with the concrete DFT, no hypotheses left**: the normalised `fft2` / `ifft2`
+preserve `Σ_k conj(x_k)·x_k = Σ_k |x_k|²` for every complex list, centred or not. -/
+theorem fft2_energy_dft (cfg : Cfg) (hn : cfg.normalized = true) (xs : List ℂ) :
+    C01.energy (fun z => conj z * z) (fft2 (listBackend torchFft) cfg xs) = C01.energy (fun z => conj z * z) xs ∧
+    C01.energy (fun z => conj z * z) (ifft2 (listBackend torchFft) cfg xs) = C01.energy (fun z => conj z * z) xs :=
+  C01.fft2_energy (fun z => conj z * z) torchFft energy_torchFft_ortho cfg hn xs
 
 /-- `stdAddChar` is the textbook root of unity: `stdAddChar (j : ℤ/n) = e^{2πi j/n}` -/
 example {n : ℕ} [NeZero n] (j : ℤ) :
